@@ -90,6 +90,9 @@ def build(ctx, n_sup, n_full, n_inst, world_name="faithful"):
             for n in range(n_inst):
                 v = I.gen(ref, minimal=(n == 0))
                 add(v, "gen")
+                ev = schemagen.with_extra_keys(doc, ref, v)
+                if ev is not None:
+                    add(ev, "extra-key")
                 for bv in schemagen.boundary_variants(ctx.seed + n, doc, ref, v)[:4]:
                     add(bv, "boundary")
                 for kind, mv in schemagen.mutants(ctx.seed + n, doc, ref, v)[:8]:
